@@ -3,6 +3,8 @@ import SafeC.Proofs.Bsearch
 import SafeC.Proofs.SortSafe
 import SafeC.Proofs.SortWhole
 import SafeC.Proofs.SortCycle
+import SafeC.Proofs.SortSorted
+import SafeC.Proofs.SortGap64
 /-!
 # C16 — "qsort_s sorts and bsearch_s finds, for every array and comparator"
 
@@ -69,7 +71,7 @@ FULL statement — FALSE of the model (and of the C) beyond 55 555 780 070 575 e
   theorem qsort_safe (fx) (hfx : fx.ctz64 = true) (c : Cmp α) (g : Args) (s : St α) (hn : g.nmemb = s.a.size)
       (h63 : g.nmemb * g.size ≤ 2 ^ 63) (h3 : 3 * g.size < 2 ^ 64) : ∃ o, qsortChk fx c g s = .ok o
 
-`qsort_sorted` (total preorder ⇒ ordered result) is NOT proved: see NOTES_C16.md. -/
+-/
 
 /-- (3) `_qsort_s_chk` on an array of exactly `nmemb` elements, EVERY comparator (inconsistent ones included), both codes:
     the call returns (terminates; every element index `< nmemb`; no pointer below `base`; `lp[]`, `ar[]` within capacity)
@@ -172,6 +174,83 @@ example : leo 3 ≤ 4 + 1 ∧ LpOk #[1, 1, 3, 5, 9] 3 := by
     `qsort_s-ntz-counts-32-bits`). -/
 theorem pntz_witness : pntz unrepaired ⟨2 ^ 33 + 1, 0⟩ = 32 ∧ pntz allFixed ⟨2 ^ 33 + 1, 0⟩ = 33 ∧ leo 34 + 1 = 18454930 := by
   refine ⟨by decide +kernel, by decide +kernel, by decide +kernel⟩
+
+/-- second half of the witness, on the model's `trinkle` itself: in the state `p = {1,1}`, `pshift = 1` (the forest of orders 1 and
+    65 of `qsort_safe_witness`), repaired `ntz`, any array with at least 114 elements below `head`, a comparator that answers
+    "greater" every time: `trinkle` does not return, it runs over the 113 entries of `ar[]` (`Fault.arIdx`) -/
+theorem qsort_safe_overrun_witness (e : Env α) (hfx : e.fx.ctz64 = true) (hcmp : ∀ k i j x y, e.cmp k i j x y = 1)
+    (hlp1 : e.lp[1]? = some 1) (s : St α) (head : Nat) (hh : head < s.a.size) (h113 : 113 ≤ head) :
+    trinkle e s head ⟨1, 1⟩ 1 false = .error .arIdx := trinkle_gap64_overrun e hfx hcmp hlp1 s head hh h113
+
+/-- non-vacuity: 200 elements, head = 150 -/
+example : (150 : Nat) < (Array.replicate 200 (0 : Nat)).size ∧ 113 ≤ 150 ∧ (#[1, 1, 3] : Array Nat)[1]? = some 1 := by
+  refine ⟨by simp, by decide, by decide⟩
+
+/-! ## (5) qsort_s sorts — comparator a total preorder
+
+On top of `Shape`: every tree of the forest heap-ordered (`Heaps`), roots ascending (`Roots`) — during the build phase only
+for the trees the code itself declares final (`RootsFin`: `lp[pshift-1] >= high - head` is a static property of a tree's
+order and root position, and a final tree has only final trees to its left, `fin_step`) —, and in the dismantling loop
+everything right of `head` in its final place (`Dom`).  `sift_spec`: `sift` restores the heap order of one tree given both
+subtrees are heaps; `trinkle_spec`: `trinkle` restores heap order and ascending roots of the whole forest. -/
+
+/-- (5) `_qsort_s_chk` returns EOK on an array of exactly `nmemb` elements of `size > 0` bytes, with a comparator that
+    is a total preorder — its sign depends on the two elements only (`f`), is antisymmetric (`0 ≤ f x y ↔ f y x ≤ 0`, which
+    gives totality and reflexivity) and transitive: the result is ordered, `f a[j] a[i] ≤ 0` for all `j ≤ i`.  Same side
+    conditions as `qsort_safe_partial` (see there and `qsort_safe_witness` for why the element count is bounded); together with
+    `qsort_perm` this is "sorted permutation of the input". -/
+theorem qsort_sorted_partial (fx : Fixes) (c : Cmp α) (f : α → α → Int) (hcmp : ∀ k i j x y, c.cmp k i j x y = f x y)
+    (hanti : ∀ x y, 0 ≤ f x y ↔ f y x ≤ 0) (htrans : ∀ x y z, f x y ≤ 0 → f y z ≤ 0 → f x z ≤ 0)
+    (g : Args) (s : St α) (hn : g.nmemb = s.a.size) (hsz : 0 < g.size) (h63 : g.nmemb * g.size ≤ 2 ^ 63)
+    (h3 : 3 * g.size < 2 ^ 64) (hb : g.nmemb ≤ safeBound fx) (o : Out α Nat) (h : qsortChk fx c g s = .ok o)
+    (hok : o.ret = EOK) :
+    ∀ (i j : Nat) (hi : i < o.st.a.size) (hij : j ≤ i), f (o.st.a[j]'(by omega)) o.st.a[i] ≤ 0 := by
+  intro i j hi hij
+  have hsize : o.st.a.size = s.a.size := qsort_size fx c g s o h
+  have h0 : 0 < s.a.size := by omega
+  haveI : Inhabited α := ⟨s.a[0]⟩
+  have hc : Consistent c.cmp (fun x y => f x y ≤ 0) := by
+    refine ⟨fun x y => ?_, fun {x y z} => htrans x y z, fun k i j x y => by rw [hcmp]; exact hanti x y,
+      fun k i j x y => by rw [hcmp]⟩
+    by_cases hxy : f x y ≤ 0
+    · exact Or.inl hxy
+    · exact Or.inr ((hanti x y).mp (by omega))
+  obtain ⟨r, hr, _, hsorted⟩ := qsortMusl_sorted fx c hc s g.nmemb g.size hn hsz h63 h3 hb
+  have hrun : ∀ o', (do let s' ← qsortMusl fx c s g.nmemb g.size; pure (⟨EOK, none, [], s'⟩ : Out α Nat)) = .ok o' →
+      o'.st = r := by
+    intro o' ho'
+    rw [hr] at ho'
+    cases ho'
+    rfl
+  have hst : o.st = r := by
+    unfold qsortChk at h
+    split at h
+    · cases h; exact absurd hok (by dsimp only; decide)
+    · split at h
+      · split at h
+        · cases h; exact absurd hok (by dsimp only; decide)
+        · exact hrun o h
+      · split at h
+        · split at h
+          · cases h; exact absurd hok (by dsimp only; decide)
+          · exact hrun o h
+        · split at h
+          · cases h; exact absurd hok (by dsimp only; decide)
+          · exact hrun o h
+  have := hsorted i j hij (by omega)
+  subst hst
+  simp only [St.g] at this
+  rw [getElem!_pos o.st.a j (by omega), getElem!_pos o.st.a i hi] at this
+  exact this
+
+/-- non-vacuity: the three-way comparison of natural numbers is such a comparator -/
+example : (∀ x y : Nat, 0 ≤ (if x < y then (-1 : Int) else if x > y then 1 else 0) ↔
+      (if y < x then (-1 : Int) else if y > x then 1 else 0) ≤ 0) ∧
+    (∀ x y z : Nat, (if x < y then (-1 : Int) else if x > y then 1 else 0) ≤ 0 →
+      (if y < z then (-1 : Int) else if y > z then 1 else 0) ≤ 0 → (if x < z then (-1 : Int) else if x > z then 1 else 0) ≤ 0) := by
+  constructor
+  · intro x y; split <;> split <;> (try split) <;> (try split) <;> omega
+  · intro x y z; split <;> split <;> (try split) <;> (try split) <;> (try split) <;> (try split) <;> omega
 
 /-! ## the byte-level `cycle` (rotation through `tmp[256]` in chunks) is the element rotation the sort model uses -/
 
